@@ -27,7 +27,7 @@ func init() {
 		Assumptions: []string{
 			"frame width 65536 (width-1 = 65535) is excluded for the scalability-structure clause: it does not fit the 16-bit SS field; the header parser is still judged on it",
 			"show_existing_frame frames are judged for losslessness, B/E and picture id only",
-			"a complete descriptor followed by zero payload bytes may be rejected",
+			"a complete descriptor is accepted whatever follows it, also when no payload byte follows",
 		},
 		Strata: []fw.Stratum{
 			{Name: "payloader-instances", N: fw.Const(150000, 4000000), Run: c12Pay},
@@ -377,15 +377,11 @@ func c12Dec(c *fw.Ctx, i int) {
 			continue
 		}
 		if err != nil {
-			if plen == 0 {
-				c.Count("complete_descriptor_without_payload_rejected(allowed)", 1)
-				continue
-			}
 			npd := 0
 			if d.F && d.P {
 				npd = len(d.PDiff)
 			}
-			c.Fail(fmt.Sprintf("C12/decoder/rejects-well-formed/pdiffs-%d/v-%v", npd, d.V), "VP9Packet rejects a well-formed descriptor followed by payload: "+err.Error(), wit)
+			c.Fail(fmt.Sprintf("C12/decoder/rejects-well-formed/pdiffs-%d/v-%v/payload-bytes-%d", npd, d.V, minI(plen, 1)), "VP9Packet rejects a complete, well-formed descriptor: "+err.Error(), wit)
 			return
 		}
 		bad := ""
